@@ -12,6 +12,8 @@ CONSTANTS
   NoEvent = {2}
   Big = {1}
   SlotRep <- MCSlotRep2
+  OCells = {}
+  OKeys = {}
   Forms = {"shift", "bad"}
 INVARIANTS TypeOK Conservation OnePlace WellFormed EventsOnce IdleClean
 PROPERTIES DestroyedForever OnlyCommitChangesCommitted
